@@ -763,6 +763,54 @@ pub fn tame(cfg: &mut Config, input_len: usize) {
     }
 }
 
+/// Things other tools put into sequence files and lenient parsers accept, but the documented rules
+/// of this crate do not: byte order marks, comment lines, indentation, control characters, magic
+/// numbers. One of them is inserted at the start of the file, at the start of a line or at the very end.
+pub const FOREIGN_TOKENS: [&[u8]; 24] = [
+    b"\xEF\xBB\xBF",
+    b"\xFF\xFE",
+    b"\xFE\xFF",
+    b"\x1F\x8B",
+    b" ",
+    b"\t",
+    b"  ",
+    b";",
+    b"#",
+    b";comment\n",
+    b"#comment\n",
+    b"\x0C",
+    b"\x0B",
+    b"\x00",
+    b"\xC2\x85",
+    b"\xE2\x80\xA8",
+    b"\x1A",
+    b"\x04",
+    b"\r",
+    b"\r\r\n",
+    b"\\n",
+    b"//\n",
+    b">>",
+    b"@@",
+];
+
+pub fn insert_foreign_token(rng: &mut Rng, bytes: &mut Vec<u8>) -> usize {
+    let k = rng.below(FOREIGN_TOKENS.len());
+    let tok = FOREIGN_TOKENS[k];
+    let line_starts: Vec<usize> = std::iter::once(0)
+        .chain(bytes.iter().enumerate().filter(|(_, b)| **b == b'\n').map(|(i, _)| i + 1))
+        .filter(|i| *i <= bytes.len())
+        .collect();
+    let at = match rng.below(4) {
+        0 | 1 => 0,
+        2 => *rng.pick(&line_starts),
+        _ => bytes.len(),
+    };
+    for (j, b) in tok.iter().enumerate() {
+        bytes.insert(at + j, *b);
+    }
+    k
+}
+
 pub fn gen_chunking(rng: &mut Rng) -> Chunking {
     match rng.below(7) {
         0 | 1 => Chunking::Whole,
